@@ -36,6 +36,7 @@ def run(ctx):
     import r_globals
     import r_flags
     ctx.run_rule("W1", r_globals.rule_W1, cfgs)
+    ctx.run_rule("AB", r_globals.rule_AB, cfgs)
     ctx.run_rule("G3", r_globals.rule_G3, cfgs)
     ctx.run_rule("Fh", r_flags.rule_F_hash_many, cfgs)
     facts = {c: ctx.facts(c) for c in cfgs}
